@@ -1,0 +1,26 @@
+// Copyright 2022 The Go Authors. All rights reserved.
+// Use of this source code is governed by a BSD-style
+// license that can be found in the LICENSE file.
+
+//go:build verif
+
+// Machine-checked contracts for the query algebra of package db (//@ lines,
+// read by /verif/gocv).  Compiled only under the "verif" tag; comment-only.
+
+package db
+
+// sat(p, v): label value v satisfies query part p (bytewise string comparison).
+//@ pure func sat(p part, v string) bool = p.operator == equals ? v == p.value :
+//@     (p.operator == lt ? v < p.value : (p.operator == gt ? v > p.value : (v < p.value && v > p.value2)))
+//@ pure func partOK(p part) bool = (p.operator == equals || p.operator == ltgt || p.operator == lt || p.operator == gt) &&
+//@     (p.operator != ltgt ==> p.value2 == "")
+
+// Several terms on one key mean their conjunction: merging two parts yields a
+// part satisfied by exactly the (non-empty) values that satisfy both, or
+// io.EOF when no value can satisfy both.
+//@ func (p part) merge(p2 part) (r part, err error)
+//@   props C19
+//@   requires partOK(p) && partOK(p2) && p.key == p2.key
+//@   ensures err == nil ==> partOK(r) && r.key == p.key
+//@   ensures err == nil ==> forall v string :: v != "" ==> (sat(r, v) <==> (sat(p, v) && sat(p2, v)))
+//@   ensures err != nil ==> err == io.EOF && forall v string :: v != "" ==> !(sat(p, v) && sat(p2, v))
